@@ -25,6 +25,7 @@ RULE = ('cases = (a) exhaustive sweep of every reachable binarised time-mask pat
         'x fold_bn on/off.  A case is non-trivial when at least one mask element is pruned AND the '
         'exported network differs from the seed in at least one conv/linear hyper-parameter; '
         'distinct = hash of (program, options, mask assignment).')
+RULE += ('  Round 2/3: BatchNorm layers with non-default eps (1e-3, 1e-2, 5e-2); heads made of two classifiers concatenated into the output.')
 ASSUMPTIONS = [
     'equality is judged on a batch of 4 random real inputs per case with tolerance 1e-4*(1+max|y|)',
     'time masks are pruned only on causally padded stride-1 Conv1d (the statement\'s scope)',
